@@ -437,6 +437,31 @@ struct RandomEvaluatorImpl<BundleBase<Derived>>
   }
 };
 
+/**
+ * @brief Cast specialization for Bundle objects:
+ * every element is cast by its own group (which re-normalizes
+ * its rotation part in the new scalar type).
+ */
+template <typename Derived, typename NewScalar>
+struct CastEvaluatorImpl<BundleBase<Derived>, NewScalar>
+{
+  template <typename T>
+  static auto run(const T & o)
+  -> typename Derived::template LieGroupTemplate<NewScalar>
+  {
+    return run(o, internal::make_intseq_t<Derived::BundleSize>{});
+  }
+
+  template <typename T, int ... _Idx>
+  static auto run(const T & o, internal::intseq<_Idx...>)
+  -> typename Derived::template LieGroupTemplate<NewScalar>
+  {
+    return typename Derived::template LieGroupTemplate<NewScalar>(
+      o.template element<_Idx>().template cast<NewScalar>() ...
+    );
+  }
+};
+
 }  // namespace internal
 }  // namespace manif
 
